@@ -3,13 +3,13 @@ module verifharness
 go 1.26.3
 
 require (
+	github.com/fxamacker/cbor/v2 v2.9.2
 	github.com/mycoria/mycoria v0.0.0
 	golang.org/x/crypto v0.54.0
 	pgregory.net/rapid v1.3.0
 )
 
 require (
-	github.com/fxamacker/cbor/v2 v2.9.2 // indirect
 	github.com/google/btree v1.1.3 // indirect
 	github.com/klauspost/cpuid/v2 v2.4.0 // indirect
 	github.com/mdlayher/ndp v1.1.0 // indirect
